@@ -119,6 +119,12 @@ UserLeaf == /\ Running /\ Top.ph = "start" /\ Top.n.op = "user"
                IF IsEOF(Env, p) THEN Finish(ctxs, log, Ret("no", <<>>, FALSE))
                ELSE Finish(SetTop(ctxs, [C EXCEPT !.st = [raw |-> p + 1, cur |-> C.st.cur + 1, fc |-> C.st.fc]]), log, Ret("ok", <<[user |-> Toks[p].v]>>, TRUE))
 
+User2Leaf == /\ Running /\ Top.ph = "start" /\ Top.n.op = "user2"
+             /\ Emit(<<>>)
+             /\ LET p == NxtFrom(Env, C.st.raw) IN
+                IF IsEOF(Env, p) \/ Toks[p].t # "Ident" THEN Finish(ctxs, log, Ret("no", <<>>, FALSE))
+                ELSE Finish(SetTop(ctxs, [C EXCEPT !.st = [raw |-> p + 1, cur |-> C.st.cur + 1, fc |-> C.st.fc]]), log, Ret("ok", <<[user2 |-> Toks[p].v]>>, TRUE))
+
 \* ---------------------------------------------------------------- sequence
 SeqStart == /\ Running /\ Top.ph = "start" /\ Top.n.op = "seq"
           /\ Emit(<<>>)
@@ -284,7 +290,7 @@ MInit == /\ gi \in 1..Len(Cases) /\ ii \in 1..Len(Cases[gi].inputs) /\ ki \in 1.
          /\ ctxs = <<[st |-> [raw |-> 1, cur |-> 0, fc |-> 0], pend |-> <<>>, nid0 |-> 1, dd |-> 0, de |-> NoErr]>>
          /\ log = <<>> /\ nid = 1 /\ ret = NoRet /\ evs = <<>> /\ eout = NoErr /\ trc = <<>>
 
-MNext == \/ LitRef \/ UserLeaf \/ SeqStart \/ SeqRet \/ AltStart \/ AltRet \/ GrpStart \/ GrpRet \/ CapStart \/ CapRet
+MNext == \/ LitRef \/ UserLeaf \/ User2Leaf \/ SeqStart \/ SeqRet \/ AltStart \/ AltRet \/ GrpStart \/ GrpRet \/ CapStart \/ CapRet
          \/ ProdStart \/ ProdRet \/ NegStart \/ NegRet \/ LookStart \/ LookRet \/ Terminate
 MSpec == MInit /\ [][MNext]_mvars /\ WF_mvars(MNext)
 
